@@ -73,6 +73,60 @@ Theorem C09_gc_reopen :
 Proof. exact gc_reopen_final. Qed.
 Print Assumptions C09_gc_reopen.
 
+(* GC whose context is found done in the sweep, after [k] entries of the directory order
+   [order] (the sweep tests the context before every entry; the index is rebuilt and saved
+   before the sweep): the references and the graph are those of a complete GC, no live blob is
+   removed, exactly the garbage among the handled entries is removed, the live set is the one
+   before.  For every order of the directory, every k, every iteration order. *)
+Theorem C09_gc_cancel_safe :
+  forall succ subject manifest, acyclic succ -> subject_listed succ subject ->
+  forall kl ords order k st, same_elements ords (candidates (idx st)) ->
+  exists st',
+    gc_cancel succ subject manifest cfg_fixed kl ords order k st = (st', ECanceled) /\
+    idx st' = idx (fst (gc succ subject manifest cfg_fixed kl ords st)) /\
+    gnodes st' = gnodes (fst (gc succ subject manifest cfg_fixed kl ords st)) /\
+    (forall x, In x (gnodes st') <-> Live succ subject manifest st x) /\
+    (forall x, In x (blobs st') <->
+               In x (blobs st) /\ (Live succ subject manifest st x \/ swept_blob x (firstn k order) = false)) /\
+    (forall s, In s (strays st') <->
+               In s (strays st) /\ (s_known s && s_valid s = false \/
+                                    swept_stray (s_id s) (firstn k order) = false)) /\
+    autogc st' = autogc st /\
+    (forall x, Live succ subject manifest st' x <-> Live succ subject manifest st x).
+Proof. exact gc_cancel_final. Qed.
+Print Assumptions C09_gc_cancel_safe.
+
+(* a GC after a cancelled GC ends where the complete GC would have ended *)
+Theorem C09_gc_resume :
+  forall succ subject manifest, acyclic succ -> subject_listed succ subject ->
+  forall kl ords order k st ords2,
+  same_elements ords (candidates (idx st)) ->
+  let sc := fst (gc_cancel succ subject manifest cfg_fixed kl ords order k st) in
+  same_elements ords2 (candidates (idx sc)) ->
+  let s1 := fst (gc succ subject manifest cfg_fixed kl ords st) in
+  let s2 := fst (gc succ subject manifest cfg_fixed kl ords2 sc) in
+  snd (gc succ subject manifest cfg_fixed kl ords2 sc) = Ok /\
+  (forall x, In x (blobs s2) <-> In x (blobs s1)) /\
+  (forall x, In x (gnodes s2) <-> In x (gnodes s1)) /\
+  (forall t n, In (RTag t, n) (idx s2) <-> In (RTag t, n) (idx s1)).
+Proof. exact gc_resume_final. Qed.
+Print Assumptions C09_gc_resume.
+
+(* GC is idempotent: a second GC removes nothing and keeps graph, tags and stray files *)
+Theorem C09_gc_idempotent :
+  forall succ subject manifest, acyclic succ -> subject_listed succ subject ->
+  forall kl ords st ords2,
+  same_elements ords (candidates (idx st)) ->
+  let s1 := fst (gc succ subject manifest cfg_fixed kl ords st) in
+  same_elements ords2 (candidates (idx s1)) ->
+  let s2 := fst (gc succ subject manifest cfg_fixed kl ords2 s1) in
+  (forall x, In x (blobs s2) <-> In x (blobs s1)) /\
+  (forall x, In x (gnodes s2) <-> In x (gnodes s1)) /\
+  (forall t n, In (RTag t, n) (idx s2) <-> In (RTag t, n) (idx s1)) /\
+  (forall s, In s (strays s2) <-> In s (strays s1)).
+Proof. exact gc_idempotent_final. Qed.
+Print Assumptions C09_gc_idempotent.
+
 (* ---- Delete ---- *)
 
 (* Delete x with AutoGC on, x stored: for every iteration order it returns Ok and removes
